@@ -10,7 +10,7 @@ def Item.beq : Item → Item → Bool
   | .str a, .str b => a == b
   | .ptr s o, .ptr s' o' => s == s' && o == o'
   | .position o, .position o' => o == o'
-  | .object o c b, .object o' c' b' => o == o' && c == c' && Item.beqL b b'
+  | .object m o c b, .object m' o' c' b' => decide (m = m') && o == o' && c == c' && Item.beqL b b'
   | _, _ => false
 def Item.beqL : List Item → List Item → Bool
   | [], [] => true
@@ -25,21 +25,21 @@ theorem Item.eq_of_beq : (a b : Item) → Item.beq a b = true → a = b
   | .str a, .str b, h => by simp [Item.beq] at h; rw [h]
   | .ptr s o, .ptr s' o', h => by simp [Item.beq] at h; rw [h.1, h.2]
   | .position o, .position o', h => by simp [Item.beq] at h; rw [h]
-  | .object o c b, .object o' c' b', h => by
-    simp only [Item.beq, Bool.and_eq_true, beq_iff_eq] at h
-    rw [h.1.1, h.1.2, Item.eqL_of_beqL b b' h.2]
+  | .object m o c b, .object m' o' c' b', h => by
+    simp only [Item.beq, Bool.and_eq_true, beq_iff_eq, decide_eq_true_eq] at h
+    rw [h.1.1.1, h.1.1.2, h.1.2, Item.eqL_of_beqL b b' h.2]
   | .prim _ _, .raw _, h | .prim _ _, .str _, h | .prim _ _, .ptr _ _, h | .prim _ _, .position _, h
-  | .prim _ _, .object _ _ _, h => by simp [Item.beq] at h
+  | .prim _ _, .object _ _ _ _, h => by simp [Item.beq] at h
   | .raw _, .prim _ _, h | .raw _, .str _, h | .raw _, .ptr _ _, h | .raw _, .position _, h
-  | .raw _, .object _ _ _, h => by simp [Item.beq] at h
+  | .raw _, .object _ _ _ _, h => by simp [Item.beq] at h
   | .str _, .prim _ _, h | .str _, .raw _, h | .str _, .ptr _ _, h | .str _, .position _, h
-  | .str _, .object _ _ _, h => by simp [Item.beq] at h
+  | .str _, .object _ _ _ _, h => by simp [Item.beq] at h
   | .ptr _ _, .prim _ _, h | .ptr _ _, .raw _, h | .ptr _ _, .str _, h | .ptr _ _, .position _, h
-  | .ptr _ _, .object _ _ _, h => by simp [Item.beq] at h
+  | .ptr _ _, .object _ _ _ _, h => by simp [Item.beq] at h
   | .position _, .prim _ _, h | .position _, .raw _, h | .position _, .str _, h | .position _, .ptr _ _, h
-  | .position _, .object _ _ _, h => by simp [Item.beq] at h
-  | .object _ _ _, .prim _ _, h | .object _ _ _, .raw _, h | .object _ _ _, .str _, h | .object _ _ _, .ptr _ _, h
-  | .object _ _ _, .position _, h => by simp [Item.beq] at h
+  | .position _, .object _ _ _ _, h => by simp [Item.beq] at h
+  | .object _ _ _ _, .prim _ _, h | .object _ _ _ _, .raw _, h | .object _ _ _ _, .str _, h | .object _ _ _ _, .ptr _ _, h
+  | .object _ _ _ _, .position _, h => by simp [Item.beq] at h
 theorem Item.eqL_of_beqL : (a b : List Item) → Item.beqL a b = true → a = b
   | [], [], _ => rfl
   | a :: as, b :: bs, h => by
